@@ -4,6 +4,7 @@ import (
 	"fmt"
 	"go/token"
 	"go/types"
+	"os"
 	"strings"
 
 	"golang.org/x/tools/go/ssa"
@@ -541,7 +542,7 @@ func runP9s(p *an.Prog, r *an.Result) {
 	pr := &prover{p: p, nn: &nonNeg{p: p, memo: map[*ssa.Function]int{}}}
 	for _, fn := range p.Funcs {
 		o := an.Outermost(fn)
-		if o.Pkg == nil || an.RelPkg(o.Pkg.Pkg.Path()) != "filters" {
+		if o.Pkg == nil || (an.RelPkg(o.Pkg.Pkg.Path()) != "filters" && os.Getenv("LV_P9_ALL") == "") || isMainPkg(fn) {
 			continue
 		}
 		name := roles.Label(fn)
